@@ -24,6 +24,7 @@ PROP = "C14"
 SHAREABLE = ["page", "title", "subline", "page_header", "page_footer", "footnote", "source",
              "body", "header", "df"]
 ABORT_EXCS = ["MemoryError", "KeyboardInterrupt", "ValueError", "InjectedFault"]
+MUTABLE = ["title", "footnote", "source", "page_header", "page_footer", "subline"]
 
 # --------------------------------------------------------------------------
 # plan generation (pure; no rtflite)
@@ -61,11 +62,36 @@ def gen_plan(rng) -> dict:
         ops.append({"op": "construct", "slot": s, "recipe": ri, "share": share_flags()})
         return s
 
+    def add_mutate(s):
+        """Replace one text component of a live document by a freshly built one;
+        the document is then equal-valued to a new recipe (appended to the pool)."""
+        base = recs[slots[s]]
+        comp = rng.choice(MUTABLE)
+        spec = dict(rng.choice(pal[comp]))
+        if rng.random() < 0.15 and comp != "title":
+            spec = None
+        if spec is not None and base["kind"] == "figure" and comp in ("footnote", "source"):
+            spec["as_table"] = False
+        new = json_copy(base)
+        new[comp] = spec
+        if cjson(new) == cjson(base):
+            return False
+        recs.append(new)
+        slots[s] = len(recs) - 1
+        ops.append({"op": "mutate", "slot": s, "comp": comp, "recipe": len(recs) - 1})
+        return True
+
     add_construct()
     want_special_next = False
     while len(ops) < L - 1:
         live = sorted(slots)
         r = rng.random()
+        if live and rng.random() < 0.08:
+            s = rng.choice(live)
+            if add_mutate(s):
+                if rng.random() < 0.8:
+                    ops.append({"op": "encode", "slot": s})
+                continue
         if want_special_next and live:
             # bias: after an abort, encode a multi-section / figure document if any
             special = [s for s in live if recs[slots[s]]["kind"] in ("multi", "figure")]
@@ -87,6 +113,8 @@ def gen_plan(rng) -> dict:
             s = rng.choice(live)
             del slots[s]
             ops.append({"op": "drop", "slot": s})
+            if rng.random() < 0.6 and next_slot < 8:
+                ops.append({"op": "encode", "slot": add_construct()})
         elif next_slot < 8:
             add_construct()
     live = sorted(slots)
@@ -197,7 +225,8 @@ def exec_history(arg) -> dict:
                     ev["skipped"] = True
                     log.append(ev)
                     continue
-                inj = Injector(k, exc=op["exc"], mode=plan.get("trace_mode", "call"))
+                inj = Injector(k, exc=op["exc"], mode=plan.get("trace_mode", "call"),
+                               on_fire=lambda: state.s1_digest().get("colour_ctx") not in (None, "n/a"))
                 old = sys.gettrace()
                 sys.settrace(inj)
                 try:
@@ -208,10 +237,28 @@ def exec_history(arg) -> dict:
                 steps_total += inj.steps
                 ev["fired"] = inj.fired
                 ev["outcome"] = R.strip(o)  # recorded, never judged when fired
-                ev["in_ctx"] = None
-                if inj.fired:
-                    s1 = state.s1_digest()
-                    ev["in_ctx"] = s1.get("colour_ctx") not in (None, "n/a")
+                ev["in_ctx"] = bool(inj.fired and inj.fired.get("probe"))
+        elif kind == "mutate":
+            ent = docs.get(op["slot"])
+            if ent is None:
+                ev["skipped"] = True
+                log.append(ev)
+                continue
+            doc, frames, _ri = ent
+            ri = op["recipe"]
+            ev["recipe"] = ri
+            spec = recs[ri].get(op["comp"])
+
+            def mutate():
+                obj = None if spec is None else pool.component(op["comp"], spec, False)
+                setattr(doc, R._COMP_ARG[op["comp"]], obj)
+                return "mutated"
+
+            o = R.outcome_of(mutate)
+            o.pop("_text", None)
+            ev["outcome"] = {"k": o["k"]} if o["k"] == "ok" else R.strip(o)
+            if o["k"] == "ok":
+                docs[op["slot"]] = (doc, frames, ri)
         elif kind == "drop":
             if op["slot"] in docs:
                 del docs[op["slot"]]
@@ -318,6 +365,10 @@ def judge(plan: dict, res: dict, refs: dict) -> list:
                 natural_fail_before_now = False
         elif ev["op"] == "encode_abort":
             pass
+        elif ev["op"] == "mutate":
+            last_enc.pop(ev["slot"], None)
+            if ev["outcome"]["k"] != "ok":
+                v = {"class": "component_assignment_raised", "observed": ev["outcome"], "expected": {"k": "ok"}}
         if v is None and ev.get("frames_bad"):
             v = {"class": "dataframe_mutated", "observed": ev["frames_bad"], "expected": []}
         if v is not None:
@@ -443,16 +494,18 @@ def minimise(plan: dict, refs: dict, figdir: str, v: dict, refcache: RefCache, b
                 op["share"][c] = True
 
     # drop recipes no longer referenced, renumber
-    used = sorted({op["recipe"] for op in cur["ops"] if op["op"] == "construct"})
+    used = sorted({op["recipe"] for op in cur["ops"] if op["op"] in ("construct", "mutate")})
     remap = {old: new for new, old in enumerate(used)}
     cur["recipes"] = [cur["recipes"][i] for i in used]
     for op in cur["ops"]:
-        if op["op"] == "construct":
+        if op["op"] in ("construct", "mutate"):
             op["recipe"] = remap[op["recipe"]]
     refs2 = {str(remap[int(k)]): r for k, r in refs.items() if int(k) in remap}
 
-    # simplify recipes: drop optional components (needs new references)
-    for ri in range(len(cur["recipes"])):
+    # simplify recipes: drop optional components (needs new references);
+    # skipped when mutate ops derive one recipe from another
+    has_mut = any(op["op"] == "mutate" for op in cur["ops"])
+    for ri in range(len(cur["recipes"]) if not has_mut else 0):
         for comp in ("title", "subline", "page_header", "page_footer", "footnote", "source"):
             if budget[0] <= 2 or cur["recipes"][ri].get(comp) is None:
                 continue
@@ -594,6 +647,7 @@ def summarise(plan, res, refs, idx) -> dict:
         "natural_failures": len(nat),
         "natural_types": sorted({refs[str(e["recipe"])]["encode"]["type"] for e in nat}),
         "drops": sum(1 for e in log if e["op"] == "drop" and not e.get("skipped")),
+        "mutations": sum(1 for e in log if e["op"] == "mutate" and not e.get("skipped")),
         "shared_hits": res["shared_hits"], "hit_kinds": res["hit_kinds"],
         "paths": sorted({plan["recipes"][e["recipe"]]["kind"] for e in checked}),
         "states": sorted(states), "trans": sorted(trans), "nontrivial": sorted(nontrivial),
@@ -754,6 +808,7 @@ def write_evidence(opts, good, nres, truncated, xres, n_new, n_known, wall_s, he
                              "fired_inside_colour_context": sum(r["aborts_in_ctx"] for r in good),
                              "exception_types": abort_excs},
             "drop_and_gc": {"fired": sum(r["drops"] for r in good)},
+            "component_replaced_between_encodes": {"fired": sum(r.get("mutations", 0) for r in good)},
         },
         "histories_by_fault_mode": modes,
         "histories_fault_free": modes.get("none", 0),
